@@ -20,7 +20,15 @@ def _perform_read(E, obj, args, kwargs, st, node):
     s = st.copy()
     s.trace = ListV(s.trace.items + (("read", addr, size),))
     data = seqs.seq_slice(obj.fields["mem"], addr, addr + size)
-    return [(s, SeqV(size, data.elem, data.arrs, "bytes", data.base), None)]
+    ok = (s, SeqV(size, data.elem, data.arrs, "bytes", data.base), None)
+    fails = E.options.get("entry", {}).get("g_transfer_fails")        # (a parameter of the contract under verification, if declared)
+    if fails is None:
+        return [ok]
+    # where a contract declares the ghost g_transfer_fails, the transfer may also fail (the controller's read raises - a
+    # timeout, say): nothing was transferred
+    from pyvc.engine import Raised
+    from pyvc.values import ExcV
+    return [(s.assume(z3.Not(fails)), ok[1], None), (st.assume(fails), Raised(ExcV("TransferError")), None)]
 
 
 def _perform_write(E, obj, args, kwargs, st, node):
@@ -79,6 +87,10 @@ def frame_view(a, b):
 
 
 # ---- native harness: a real SlicedMemoryIO over a recording parent ---------------------------------
+class TransferError(Exception):
+    """the controller below the view fails to carry out a transfer (an SCP timeout, say)"""
+
+
 class _Parent(object):
     def __init__(self, freed, mem, closed=False):
         self._freed = freed
@@ -87,6 +99,8 @@ class _Parent(object):
         self.trace = []
 
     def _perform_read(self, addr, size):
+        if getattr(self, "fail_transfers", False):
+            raise TransferError()
         self.trace.append(("read", addr, size))
         return bytes(self.mem[addr:addr + size]) if addr >= 0 and size >= 0 else b"?" * max(size, 0)
 
@@ -117,10 +131,11 @@ def _mk_view(self):
     return v, par
 
 
-def _run(self, call):
+def _run(self, call, fail_transfers=False):
     import warnings
     import types
     v, par = _mk_view(self)
+    par.fail_transfers = fail_transfers
     with warnings.catch_warnings(record=True) as w:
         warnings.simplefilter("always")
         try:
@@ -142,12 +157,16 @@ def _run(self, call):
 @contract("rig/machine_control/machine_controller.py::SlicedMemoryIO.read")
 class Read:
     properties = ("C13",)
-    params = dict(self=VIEW, n_bytes=TInt())
+    params = dict(self=VIEW, n_bytes=TInt(), g_transfer_fails=TBool())
     externals = EXTERNALS
-    raises = {"OSError": None}
+    raises = {"OSError": None, "TransferError": None}
 
-    def native(self, n_bytes):
-        return _run(self, lambda v: v.read(n_bytes))
+    def native(self, n_bytes, g_transfer_fails):
+        return _run(self, lambda v: v.read(n_bytes), fail_transfers=g_transfer_fails)
+
+    def raises_TransferError(self, self_post, g_transfer_fails, _trace):
+        # "positions advance by the bytes transferred": a transfer that fails moved nothing, the position stays where it was
+        return g_transfer_fails and usable(self) and self_post._offset == self._offset and frame_view(self, self_post)
 
     def requires(self, n_bytes):
         return inv(self)
